@@ -85,6 +85,26 @@ var noIncremental = true
 // solverSlots bounds the number of obligations being solved at any time (each may start up to three processes)
 var solverSlots = make(chan struct{}, 16)
 
+// quickTry: the first back end alone with a short budget.
+func quickTry(file string, ms int) (string, string) {
+	argv := solvers[0].argv(file, ms)
+	out, _ := exec.Command(argv[0], argv[1:]...).CombinedOutput()
+	for _, l := range strings.Split(string(out), "\n") {
+		l = strings.TrimSpace(l)
+		if strings.HasPrefix(l, "(error") {
+			// a malformed query decides nothing (the solver would go on without the offending line)
+			return "error", solvers[0].name
+		}
+		if l == "sat" || l == "unsat" {
+			return l, solvers[0].name
+		}
+		if l == "unknown" || l == "timeout" {
+			break
+		}
+	}
+	return "unknown", solvers[0].name
+}
+
 // raceSolvers runs all back ends on one query file concurrently and returns the first definite answer.
 func raceSolvers(file string, timeoutMs int) (string, string) {
 	type r struct{ st, by string }
@@ -100,6 +120,9 @@ func raceSolvers(file string, timeoutMs int) (string, string) {
 		out, _ := exec.CommandContext(ctx, argv[0], argv[1:]...).CombinedOutput()
 		for _, l := range strings.Split(string(out), "\n") {
 			l = strings.TrimSpace(l)
+			if strings.HasPrefix(l, "(error") {
+				return "error", solvers[0].name
+			}
 			if l == "sat" || l == "unsat" {
 				return l, solvers[0].name
 			}
@@ -130,6 +153,10 @@ func raceSolvers(file string, timeoutMs int) (string, string) {
 			st := "unknown"
 			for _, l := range strings.Split(string(out), "\n") {
 				l = strings.TrimSpace(l)
+				if strings.HasPrefix(l, "(error") {
+					st = "error"
+					break
+				}
 				if l == "sat" || l == "unsat" || l == "unknown" || l == "timeout" {
 					st = l
 					break
@@ -286,8 +313,8 @@ func (eng *Engine) discharge(vc *VC, workDir string, timeoutMs int, thorough boo
 					}
 				}
 				os.WriteFile(qf, []byte(singles[i]), 0o644)
-				st, by := raceSolvers(qf, timeoutMs)
-				if st != "unsat" && st != "sat" && len(paths[i]) > 0 {
+				st, by := quickTry(qf, 2500)
+				trySplit := func() {
 					// case split over the covering paths: discharged iff every path is
 					all := true
 					quantGoal := strings.Contains(vc.obls[i].Cond, "(forall") || strings.Contains(vc.obls[i].Cond, "(exists")
@@ -314,6 +341,17 @@ func (eng *Engine) discharge(vc *VC, workDir string, timeoutMs int, thorough boo
 						st, by = "unsat", "split/"+fmt.Sprint(len(paths[i]))+"paths"
 					}
 				}
+				decided := func() bool { return st == "unsat" || st == "sat" }
+				if !decided() && len(paths[i]) > 0 && len(paths[i]) <= 8 {
+					trySplit() // few paths: each is much cheaper than the merged query
+				}
+				if !decided() {
+					os.WriteFile(qf, []byte(singles[i]), 0o644)
+					st, by = raceSolvers(qf, timeoutMs)
+				}
+				if !decided() && len(paths[i]) > 8 {
+					trySplit()
+				}
 				ch <- ans{i, st, by, time.Since(start).Seconds()}
 			}(i)
 		}
@@ -321,6 +359,7 @@ func (eng *Engine) discharge(vc *VC, workDir string, timeoutMs int, thorough boo
 			a := <-ch
 			total += a.secs
 			o := vc.obls[a.i]
+			o.Time = a.secs
 			if a.st == "unsat" || a.st == "sat" {
 				o.Status, o.Solver = a.st, a.by
 				delete(pending, a.i)
